@@ -1039,4 +1039,44 @@ Proof.
   rewrite user_ops_keep_arch by exact Hu. reflexivity.
 Qed.
 
+(** ** An executable sufficient check for [Fresh] (used by the non-vacuity examples) *)
+
+Definition conflicts (s : state) : list (K * (K * content)) :=
+  omap (fun p => (fun ql => (p, ql)) <$> conflict s p) (elements (dom (tA s))).
+
+Definition fresh_check (s : state) : bool :=
+  forallb (fun e : K * (K * content) =>
+             bool_decide ((tA s !! e.2.1 = None /\ tB s !! e.2.1 = None) \/
+                          (tA s !! e.2.1 = Some e.2.2 /\ tB s !! e.2.1 = Some e.2.2))) (conflicts s)
+  && bool_decide (NoDup ((fun e : K * (K * content) => e.2.1) <$> conflicts s)).
+
+Lemma elem_of_conflicts s p q l : conflict s p = Some (q, l) -> (p, (q, l)) ∈ conflicts s.
+Proof.
+  intros E. unfold conflicts. apply elem_of_list_omap. exists p. split.
+  - apply elem_of_elements, elem_of_dom. apply conflict_spec in E as (x & _ & -> & _). eauto.
+  - rewrite E. reflexivity.
+Qed.
+
+Lemma NoDup_fmap_elem_inj {A B} (g : A -> B) (l : list A) x y :
+  NoDup (g <$> l) -> x ∈ l -> y ∈ l -> g x = g y -> x = y.
+Proof.
+  induction l as [|a l IH]; intros Hnd Hx Hy E; [inversion Hx|].
+  rewrite fmap_cons in Hnd. apply NoDup_cons in Hnd as [Ha Hnd].
+  apply elem_of_cons in Hx as [->|Hx]; apply elem_of_cons in Hy as [->|Hy].
+  - reflexivity.
+  - exfalso. apply Ha. rewrite E. apply elem_of_list_fmap_1, Hy.
+  - exfalso. apply Ha. rewrite <- E. apply elem_of_list_fmap_1, Hx.
+  - apply IH; assumption.
+Qed.
+
+Lemma fresh_check_sound s : fresh_check s = true -> Fresh s.
+Proof.
+  unfold fresh_check. intros [C1 C2]%andb_prop. apply bool_decide_eq_true in C2.
+  rewrite forallb_forall in C1. split.
+  - intros p q l E. apply elem_of_conflicts, elem_of_list_In in E. specialize (C1 _ E).
+    apply bool_decide_eq_true in C1. exact C1.
+  - intros p1 p2 q l1 l2 E1 E2. apply elem_of_conflicts in E1, E2.
+    pose proof (NoDup_fmap_elem_inj _ _ _ _ C2 E1 E2 eq_refl) as X. congruence.
+Qed.
+
 End BisyncProofs.
